@@ -142,6 +142,11 @@ int main ()
       case 5: jacobi_real<5>(A,O,false); break; case 6: jacobi_real<6>(A,O,false); break; case 7: jacobi_real<7>(A,O,false); break; case 8: jacobi_real<8>(A,O,false); break;
       default: throw ProtocolError ("n"); } };
 
+  // history: a direct eigen() call on a quaternion with non-zero scalar part, then the complex solver on a matrix whose first
+  // pivot block has the same polarisation vector (any memory of the first result must not leak into the second)
+  OP("o.c10.eigenhist") { Quaternion<double,H> q = rdQ<H>(A); Quaternion<double,U> r = eigen(q); (void) r; unsigned n=A.nat();
+    switch (n) { case 2: jacobi_complex<2>(A,O,true); break; case 3: jacobi_complex<3>(A,O,true); break; case 4: jacobi_complex<4>(A,O,true); break;
+      default: throw ProtocolError ("n"); } };
   OP("jac.complex") { unsigned n=A.nat();
     switch (n) { case 2: jacobi_complex<2>(A,O,false); break; case 3: jacobi_complex<3>(A,O,false); break; case 4: jacobi_complex<4>(A,O,false); break;
       case 5: jacobi_complex<5>(A,O,false); break; case 6: jacobi_complex<6>(A,O,false); break; case 8: jacobi_complex<8>(A,O,false); break;
